@@ -11,6 +11,7 @@ mod ctrlauth;
 mod fb;
 mod format;
 mod resfault;
+mod restartloop;
 mod resource;
 mod retain;
 mod hirdb;
@@ -47,6 +48,7 @@ fn main() {
         "projreg-run" => projreg::run(rest),
         "retainmgr-run" => retain::mgr_run(rest),
         "resfault-run" => resfault::run(rest),
+        "restartloop-run" => restartloop::run(rest),
         "stfeat" => stfeat::run(rest),
         "stfeat-child" => stfeat::child(rest),
         "stfeat-one" => stfeat::one(rest),
